@@ -31,20 +31,27 @@ Variable res : St -> list P -> entry -> St * list P * Z.
 Definition idat (ps : list P) (i : Z) : Z :=
   match zth ps i with Some p => pid p | None => -1 end.
 
-(* reb_simulation_remove_particle(r, index, keep_sorted); tree = (r->tree_root != NULL).
-   Returns the new array and the int result. *)
-Definition remove_particle (tree keep : bool) (ps : list P) (index : Z) : list P * bool :=
+(* reb_simulation_remove_particle(r, index, keep_sorted); tree = (r->tree_root != NULL); nact = r->N_active (-1: all).
+   Returns the new array, the new N_active and the int result. *)
+Definition dec_if (index nact : Z) : Z := if index <? nact then nact - 1 else nact.   (* if(index<r->N_active) r->N_active--; *)
+Definition remove_particle (tree keep : bool) (nact : Z) (ps : list P) (index : Z) : list P * Z * bool :=
   let k := Z.to_nat index in
-  if (zlen ps <=? index) || (index <? 0) then (ps, false)            (* out of range: error, 0 *)
-  else if zlen ps =? 1 then ([], true)                                (* r->N==1: r->N = 0 *)
-  else if keep then
-    if tree then (ps, false)                                          (* "cannot remove ... keep sorted": 0 *)
-    else (firstn k ps ++ skipn (S k) ps, true)                        (* shift down *)
+  if (zlen ps <=? index) || (index <? 0) then (ps, nact, false)       (* out of range: error, 0 *)
+  else if keep && tree then (ps, nact, false)                          (* "cannot remove ... keep sorted": 0, nothing touched *)
+  else if (zlen ps =? 1) && negb tree then ([], dec_if index nact, true)   (* r->N==1 && no tree: r->N = 0 *)
+  else if keep then (firstn k ps ++ skipn (S k) ps, dec_if index nact, true)   (* shift down *)
   else if tree then
-    (match nth_error ps k with Some p => upd ps k (flag p) | None => ps end, true)
+    (match nth_error ps k with Some p => upd ps k (flag p) | None => ps end, nact, true)
   else
-    let n' := (length ps - 1)%nat in                                  (* r->N-- ; particles[index] = particles[r->N] *)
-    (firstn n' (match nth_error ps n' with Some q => upd ps k q | None => ps end), true).
+    let n' := (length ps - 1)%nat in                                  (* r->N-- *)
+    (* if(index<r->N_active){ r->N_active--; particles[index] = particles[r->N_active]; index = r->N_active; } *)
+    let '(ps1, k1, nact1) :=
+      if index <? nact then
+        let na := nact - 1 in
+        (match nth_error ps (Z.to_nat na) with Some q => upd ps k q | None => ps end, Z.to_nat na, na)
+      else (ps, k, nact) in
+    (* particles[index] = particles[r->N] *)
+    (firstn n' (match nth_error ps1 n' with Some q => upd ps1 k1 q | None => ps1 end), nact1, true).
 
 (* "Skip collisions which involve the removed particle" *)
 Definition tomb_if (rem : Z) (e : entry) : entry :=
@@ -64,33 +71,33 @@ Definition fixup (tree keep : bool) (rem nnew : Z) (e : entry) : entry :=
 (* One "if (outcome & b){ removed = reb_simulation_remove_particle(r, k, keep_sorted); if (removed){...} }" block:
    returns the new array, the updated index of the other particle of the current collision (only the first
    block updates c.p2; the code leaves it alone when a tree exists) and the rewriting of the later entries. *)
-Definition remove_stage (tree keep : bool) (fx : entry -> entry) (ps : list P) (k other : Z)
-  : list P * Z * (entry -> entry) :=
-  let '(psx, removed) := remove_particle tree keep ps k in
+Definition remove_stage (tree keep : bool) (fx : entry -> entry) (nact : Z) (ps : list P) (k other : Z)
+  : list P * Z * Z * (entry -> entry) :=
+  let '(psx, nactx, removed) := remove_particle tree keep nact ps k in
   if removed then
-    (psx, (if tree then other else remap keep k (zlen psx) other), fun e => fixup tree keep k (zlen psx) (fx e))
-  else (psx, other, fx).
+    (psx, nactx, (if tree then other else remap keep k (zlen psx) other), fun e => fixup tree keep k (zlen psx) (fx e))
+  else (psx, nactx, other, fx).
 
 (* The loop "for (int i=0;i<collisions_N;i++)".  The C code rewrites the later array entries in place
    after each removal; here the rewriting function [fx] is accumulated and applied when an entry is
    read (same values: entry j has been rewritten by exactly the removals that happened before it is
    read, in the same order).  [pend] is the array in processing order (after the shuffle). *)
-Fixpoint resolve_loop (tree keep : bool) (fx : entry -> entry) (s : St) (ps : list P) (pend : list entry)
-  : St * list P * list event :=
+Fixpoint resolve_loop (tree keep : bool) (fx : entry -> entry) (nact : Z) (s : St) (ps : list P) (pend : list entry)
+  : St * list P * Z * list event :=
   match pend with
-  | [] => (s, ps, [])
+  | [] => (s, ps, nact, [])
   | e0 :: rest =>
     let '(p1, p2, gb) := fx e0 in
     if negb (p1 =? -1) && negb (p2 =? -1) then
       let '(s1, psr, o) := res s ps (p1, p2, gb) in
       let ev := (p1, p2, gb, idat ps p1, idat ps p2, o) in
       (* if (outcome & 1): remove p1, update c.p2 *)
-      let '(ps1, p2a, fx1) := if Z.testbit o 0 then remove_stage tree keep fx psr p1 p2 else (psr, p2, fx) in
+      let '(ps1, na1, p2a, fx1) := if Z.testbit o 0 then remove_stage tree keep fx nact psr p1 p2 else (psr, nact, p2, fx) in
       (* if (outcome & 2): remove (the updated) p2 *)
-      let '(ps2, _, fx2) := if Z.testbit o 1 then remove_stage tree keep fx1 ps1 p2a p1 else (ps1, p1, fx1) in
-      let '(s', psf, log) := resolve_loop tree keep fx2 s1 ps2 rest in
-      (s', psf, ev :: log)
-    else resolve_loop tree keep fx s ps rest
+      let '(ps2, na2, _, fx2) := if Z.testbit o 1 then remove_stage tree keep fx1 na1 ps1 p2a p1 else (ps1, na1, p1, fx1) in
+      let '(s', psf, naf, log) := resolve_loop tree keep fx2 na2 s1 ps2 rest in
+      (s', psf, naf, ev :: log)
+    else resolve_loop tree keep fx nact s ps rest
   end.
 End Loop.
 
